@@ -43,6 +43,10 @@ def _normalise_tests(tree):
                 for i, st in enumerate(h.body):
                     if isinstance(st, ast.AnnAssign) and st.value is not None and st.simple:
                         h.body[i] = ast.copy_location(ast.Assign(targets=[st.target], value=st.value, type_comment=None), st)
+    # `CONST == x` is `x == CONST`
+    for n in ast.walk(tree):
+        if isinstance(n, ast.Compare) and len(n.ops) == 1 and isinstance(n.ops[0], (ast.Eq, ast.NotEq)) and isinstance(n.left, ast.Constant) and not isinstance(n.comparators[0], ast.Constant):
+            n.left, n.comparators[0] = n.comparators[0], n.left
     for n in ast.walk(tree):
         if isinstance(n, (ast.If, ast.IfExp)):
             while isinstance(n.test, ast.UnaryOp) and isinstance(n.test.op, ast.Not) and isinstance(n.test.operand, ast.UnaryOp) and isinstance(n.test.operand.op, ast.Not):
